@@ -510,6 +510,8 @@ def rich_states(tier):
 def history_states(tier, depth):
     """start states of the exhaustive histories"""
     mats = [np.array([[1., 0.], [2., 1.]]), np.array([[0., 2., 1.], [3., 0., 0.]])]
+    if depth == 3:
+        mats += [np.array([[2.], [0.], [1.]])]
     if depth == 2:
         mats += [np.array([[2.], [0.], [1.]])]
         if tier == 'thorough':
@@ -528,7 +530,7 @@ def history_cases(tier, depth, level):
 
 def random_cases(tier, seed):
     sts = list(rich_states(tier))
-    n = 6000 if tier == 'thorough' else 480
+    n = 12000 if tier == 'thorough' else 480
     for k in range(n):
         yield dict(sts[(k * 7) % len(sts)], seed=seed, k=k, len=8)
 
@@ -570,7 +572,7 @@ def run(rep):
                      'are not re-expanded' % ('' if q else ' / single-entry / negative / dense'),
                      history_cases(rep.tier, 2, 'reduced'), run_history_case, chunk=1, exhaustive=True)
         if not q:
-            rt.run_scope(rep, 'depth3', 'all histories of length 3 over the reduced alphabet from 2x2 / 2x3 start '
+            rt.run_scope(rep, 'depth3', 'all histories of length 3 over the reduced alphabet from 2x2 / 2x3 / 3x1 start '
                          'tables x layouts x stored zeros (none/all) x metadata (none / text+taxonomy); revisited '
                          '(raw state, remaining depth) pairs are not re-expanded',
                          history_cases(rep.tier, 3, 'reduced'), run_history_case, chunk=1, exhaustive=True)
